@@ -81,6 +81,11 @@ type netSess struct {
 	gateMu   sync.Mutex
 	cliErr   error // what the client's Recv finally returned
 	sendMu   sync.Mutex
+
+	// SendAsync: requests are written by one goroutine in the order of the calls (a goroutine
+	// per call would let two requests overtake each other on their way to the stream)
+	asyncOnce sync.Once
+	asyncQ    chan *spb.ModifyRequest
 }
 
 // UseNet makes Open/Get/Flush of this server go through real gRPC over bufconn.
@@ -434,11 +439,27 @@ func quiesceGID(gid int64, what string) *Hang {
 // write) a send legitimately blocks until the stream is torn down.
 func (x *Session) SendAsync(req *spb.ModifyRequest) {
 	ns := x.n
-	go func() {
-		ns.sendMu.Lock()
-		defer ns.sendMu.Unlock()
-		ns.stream.Send(req)
-	}()
+	ns.asyncOnce.Do(func() {
+		ns.asyncQ = make(chan *spb.ModifyRequest, 4096)
+		go func() {
+			for {
+				select {
+				case r := <-ns.asyncQ:
+					ns.sendMu.Lock()
+					ns.stream.Send(r)
+					ns.sendMu.Unlock()
+				case <-ns.stream.Context().Done():
+					return
+				}
+			}
+		}()
+	})
+	select {
+	case ns.asyncQ <- req:
+	default:
+		// queue full (the stream is blocked): the request is dropped, as a request that was
+		// never written; callers only rely on the order of what is written
+	}
 }
 
 // ServerWriteBlocked reports whether a goroutine of this session's handler is parked in
